@@ -108,11 +108,13 @@ func init() {
 	register(c05)
 
 	// ------------------------------------------------------------ C06 counters
-	c06 := &Component{Name: "pipe_c06", Exec: execPipe, Rule: base + "C06 stream: histories of 5-20 counter lines on 1-3 series with values and sample rates drawn from finite, negative, signed-zero, huge (1e19, 1e308), denormal, Inf, NaN and hex spellings, under rules with scale in {unset, 0, -1, 0.001, 1000, NaN, Inf}, with a scrape after every line and occasional TTL expiry. Non-trivial: the history contains a rejected increment (negative or NaN after sampling and scaling) and at least two accepted increments."}
+	c06 := &Component{Name: "pipe_c06", Exec: execPipe, Rule: base + "C06 stream: histories of 5-20 counter lines on 1-3 series with values and sample rates drawn from finite, negative, signed-zero, huge (1e19, 1e308), denormal, Inf, NaN and hex spellings, under rules with scale in {unset, 0, -1, 0.001, 1000, NaN, Inf}, a third of the lines carrying 2-4 increments of the series (one event batch in which refused and accepted increments are neighbours), with a scrape after every line and occasional TTL expiry. Non-trivial: the history contains a rejected increment (negative or NaN after sampling and scaling) and at least two accepted increments."}
 	c06.Gen = func(r *rand.Rand, tier string, emit Emit) {
 		vals := []string{"1", "2", "0", "-1", "0.5", "1e19", "1e308", "5e-324", "inf", "-inf", "NaN", "+Inf", "0x1p-2", "-0", "3", "1e300", "18446744073709551615", "9007199254740993", "4.5"}
 		rates := []string{"", "", "", "0.1", "0.5", "2", "0", "inf", "nan", "-1", "-0.5", "1e-3", "bar", "1e309", "-0"}
-		corpus := [][]string{{"foo:NaN|c"}, {"bar:inf|c|@inf"}, {"baz:1|c|@nan"}, {"c:1e19|c", "c:1e19|c"}, {"c:-1|c"}, {"c:1|c|@-1"}}
+		corpus := [][]string{{"foo:NaN|c"}, {"bar:inf|c|@inf"}, {"baz:1|c|@nan"}, {"c:1e19|c", "c:1e19|c"}, {"c:-1|c"}, {"c:1|c|@-1"},
+			// several increments of one series in ONE event batch: a refused one must not be netted against its neighbours
+			{"c:-3|c:5|c"}, {"c:NaN|c:2|c"}, {"c:5|c:-3|c:1|c"}, {"c:1|c", "c:-1|c|@0.5:4|c:2|c"}, {"c:-inf|c:inf|c"}}
 		for _, ls := range corpus {
 			h := &pipeHist{flags: "1111"}
 			h.load(&rawCfg{})
@@ -147,6 +149,20 @@ func init() {
 				l := pick(r, []string{"a.x", "a.y", "plain"}) + ":" + v + "|c"
 				if rate != "" {
 					l += "|@" + rate
+				}
+				if r.Intn(3) == 0 { // 2-4 increments of the series in one line = one event batch
+					for m := 1 + r.Intn(3); m > 0; m-- {
+						v2 := pick(r, []string{"1", "2", "0.5", "3", "4.5", "5", "-1", "-3", "NaN", "0", "-0.5", "inf"})
+						l += ":" + v2 + "|c"
+						if r.Intn(5) == 0 {
+							l += "|@" + pick(r, []string{"0.5", "-1", "2", "0.1"})
+						}
+						if strings.HasPrefix(v2, "-") || v2 == "NaN" {
+							rej++
+						} else {
+							acc++
+						}
+					}
 				}
 				if strings.HasPrefix(v, "-") || strings.Contains(strings.ToLower(v), "nan") || strings.HasPrefix(rate, "-") || rate == "nan" {
 					rej++
